@@ -95,6 +95,18 @@ def _edge_weight(F, b, p, e):
     l = t["op"]["place"]["l"]
     for _ in range(5):
         ds = defs.of(l)
+        if len(ds) > 1 and all(d[0] == "stmt" and not d[3]["p"] for d in ds):
+            # a named bool assembled by short-circuit evaluation (`let bad = a || b;`): one way per assignment that can
+            # produce the value taking this edge
+            w = 0
+            for d in ds:
+                rv = d[4]
+                if rv["k"] == "use" and rv["op"].get("k") == "const" and str(rv["op"].get("text")) in ("true", "false"):
+                    if (str(rv["op"]["text"]) == "true") == want:
+                        w += max(1, len([p_ for p_ in b.preds()[d[1]] if not b.blocks[p_].get("cleanup")]))
+                else:
+                    w += 1
+            return max(w, 1)
         if len(ds) != 1:
             return 1
         d = ds[0]
@@ -163,34 +175,83 @@ def census(F, scopes):
     return out
 
 
+def _fn_match(fn, suffix):
+    """def-path suffix match on a segment boundary (`_new` must not match a row for `new`)"""
+    return fn == suffix or (fn.endswith(suffix) and fn[-len(suffix) - 1] in ":> "[0:3])
+
+
 def run(F, scopes, rule_id="R31"):
     r = RuleResult(rule_id, "REJECT: explicit rejections (EosError constructions) and the branches leading into them are reviewed")
     with open(os.path.join(HERE, "..", "tables", "r31.toml"), "rb") as f:
         table = tomllib.load(f).get("reject", [])
     cs = census(F, scopes)
+    # (1) a function that was moved to another module keeps its reviewed rows: a row whose `fn` matches no function any more is
+    #     adopted by the unique row-less function with the same name.  (2) rejections inside a private helper that has no row of
+    #     its own are charged to the functions that call it (the helper was extracted from them).
+    roots = {b.path for b in F.bodies if not b.is_closure()}
+    has_rows = lambda fn: any(_fn_match(fn, t["fn"]) for t in table)
+    orphan = [t for t in table if not any(_fn_match(x, t["fn"]) for x in roots)]
+    alias = {}
+    for fn in {k[0] for k in cs}:
+        if has_rows(fn):
+            continue
+        last = fn.split("::")[-1]
+        cand = {t["fn"] for t in orphan if t["fn"].split("::")[-1] == last}
+        if len(cand) == 1:
+            alias[fn] = cand.pop()
+    vis = {b.path: b.get("vis") for b in F.bodies if not b.is_closure()}
+    callers = None
+    moved = {}
+    for key in list(cs):
+        fn = key[0]
+        if has_rows(fn) or fn in alias or vis.get(fn) == "Public":
+            continue
+        if callers is None:
+            callers = {}
+            for b in F.bodies:
+                src = b.path.split("::{closure")[0]
+                for bi, t in b.calls():
+                    cb = F.callee_body(t)
+                    if cb is not None and not cb.is_closure():
+                        callers.setdefault(cb.path, set()).add(src)
+        tgt = [c for c in callers.get(fn, ()) if has_rows(c) and any(sc in c for sc in scopes)]
+        if tgt:
+            sites = cs.pop(key)
+            for c in tgt:
+                moved.setdefault((c, key[1], key[2]), []).extend(sites)
+    for k_, v_ in moved.items():
+        cs.setdefault(k_, [])
+        cs[k_] = cs[k_] + v_
     n = 0
-    for (fn, variant, tag), sites in sorted(cs.items()):
+    # the message tag is text (changing an error message is not a change of behaviour): rejections are compared per
+    # (function, error variant), summed over the tags reviewed for that pair
+    pooled = defaultdict(list)
+    for (fn, variant, tag), sites in cs.items():
+        pooled[(fn, variant)] += [dict(s_, tag=tag) for s_ in sites]
+    for (fn, variant), sites in sorted(pooled.items()):
         n += len(sites)
-        edges = sum(s["edges"] for s in sites)
-        rows = [t for t in table if fn.endswith(t["fn"]) and t["variant"] == variant and t.get("tag", "") == tag]
-        iid = "reject|%s|%s|%s" % (fn, variant, tag)
+        edges = sum(s_["edges"] for s_ in sites)
+        tags = ",".join(sorted({s_["tag"] for s_ in sites}))
+        rows = [t for t in table if (_fn_match(fn, t["fn"]) or alias.get(fn) == t["fn"]) and t["variant"] == variant]
+        iid = "reject|%s|%s|%s" % (fn, variant, tags)
         if not rows:
             r.inst(iid, sites[0]["span"], "violation")
             r.fail(iid, sites[0]["span"],
-                   "%s: a new explicit rejection `EosError::%s(%s)` — inputs reaching it are now refused; not one of the reviewed rejections" % (fn, variant, tag))
+                   "%s: a new explicit rejection `EosError::%s(%s)` — inputs reaching it are now refused; not one of the reviewed rejections" % (fn, variant, tags))
             continue
-        row = rows[0]
-        if len(sites) > row.get("sites", 1) or edges > row.get("edges", 1):
+        want_sites = sum(t.get("sites", 1) for t in rows)
+        want_edges = sum(t.get("edges", 1) for t in rows)
+        if len(sites) > want_sites or edges > want_edges:
             r.inst(iid, sites[-1]["span"], "violation", sites=len(sites), edges=edges)
             r.fail(iid + "|widened", sites[-1]["span"],
                    "%s: the rejection `EosError::%s(%s)` can now be entered from %d branch edge(s) at %d site(s) (reviewed: %d / %d): the set of "
-                   "refused inputs was widened" % (fn, variant, tag, edges, len(sites), row.get("edges", 1), row.get("sites", 1)))
-        elif len(sites) < row.get("sites", 1) or edges < row.get("edges", 1):
+                   "refused inputs was widened" % (fn, variant, tags, edges, len(sites), want_edges, want_sites))
+        elif len(sites) < want_sites or edges < want_edges:
             r.inst(iid, sites[-1]["span"], "violation", sites=len(sites), edges=edges)
             r.fail(iid + "|narrowed", sites[-1]["span"],
                    "%s: the rejection `EosError::%s(%s)` is entered from %d branch edge(s) at %d site(s) only (reviewed: %d / %d): a precondition that "
                    "used to refuse the input (`a || b`) now needs all of its parts to hold (`a && b`) — inputs without a solution are accepted"
-                   % (fn, variant, tag, edges, len(sites), row.get("edges", 1), row.get("sites", 1)))
+                   % (fn, variant, tags, edges, len(sites), want_edges, want_sites))
         else:
             r.inst(iid, sites[0]["span"], "ok", sites=len(sites), edges=edges)
     r.floor("explicit rejections examined", n, 1)
